@@ -50,6 +50,7 @@ class Engine(ExprMixin, StmtMixin, CallMixin, SpecMixin):
         self.props = tuple(props or self.contract.props)
         self.assumption_log: set[str] = set()
         self.loops_explored: dict = {}
+        self._cover_seen: set = set()
         self.covered_sites: set[str] = set()
         self.path_log: list = []
 
@@ -152,6 +153,7 @@ class Engine(ExprMixin, StmtMixin, CallMixin, SpecMixin):
         fr.entry = dict(fr.locals)
         for label, expr in c.requires:
             self.assume(self.spec_bool(expr, fr, label))
+        self.apply_lemmas(fr)
         self.base_pc = list(self.pc)
         # vacuity guard: the precondition must be satisfiable
         if not self.feasible():
@@ -165,9 +167,60 @@ class Engine(ExprMixin, StmtMixin, CallMixin, SpecMixin):
         except RaiseSig as e:
             self.exit_raise(e, fr)
 
+    def apply_lemmas(self, fr):
+        """ghost["lemmas"] = [{"name", "vars": {v: "int"|"atom"}, "induct": v, "stmt": expr}]: facts that need induction.
+        LEMMA-base: stmt[induct := 0]; LEMMA-step: induct >= 0 and stmt => stmt[induct := induct + 1] (for fresh values of
+        the variables); the universally quantified lemma is then available to every obligation of the function."""
+        for lem in (self.contract.ghost or {}).get("lemmas", []):
+            def inst(kterm, tag):
+                extra = {}
+                for v, ty in lem["vars"].items():
+                    if v == lem["induct"]:
+                        extra[v] = VInt(kterm)
+                    else:
+                        t = z3.Int(f"{tag}_{v}")
+                        extra[v] = VAtom(t) if ty == "atom" else VInt(t)
+                return self.truth(self.spec_eval(lem["stmt"], fr, extra=extra)), extra
+            k = z3.Int("lem_k")
+            base, _ = inst(z3.IntVal(0), "lem")
+            hyp, _ = inst(k, "lem")
+            step, _ = inst(k + 1, "lem")
+            if self.paths <= 1:
+                self.oblige("LEMMA-base", lem["name"], base, self.fn)
+                self.oblige("LEMMA-step", lem["name"], z3.Implies(z3.And(k >= 0, hyp), step), self.fn)
+            qk = z3.Int("q_k")
+            extra = {}
+            qs = []
+            for v, ty in lem["vars"].items():
+                t = qk if v == lem["induct"] else z3.Int("q_" + v)
+                qs.append(t)
+                extra[v] = VInt(t) if (v == lem["induct"] or ty != "atom") else VAtom(t)
+            saved_depth = self.unfold_depth
+            self.unfold_depth = 5  # do not instantiate definitions at the bound variables
+            try:
+                body = self.truth(self.spec_eval(lem["stmt"], fr, extra=extra))
+            finally:
+                self.unfold_depth = saved_depth
+            self.assume(z3.ForAll(qs, z3.Implies(qk >= 0, body)))
+
+    def cover_check(self, site, node=None):
+        """vacuity guard (DESIGN 2.8): the *full* path condition (with the quantified hypotheses) must be satisfiable
+        wherever obligations are about to be generated; an unsatisfiable one would discharge everything. 'unknown'
+        is accepted (the guard is a refuter, not a prover)."""
+        key = tuple(c.get_id() for c in self.pc)
+        if key in self._cover_seen:
+            return
+        self._cover_seen.add(key)
+        s = z3.Solver()
+        s.set("timeout", 1500)
+        s.add(*self.pc)
+        if s.check() == z3.unsat:
+            self.oblige("COVER", site, False, node, "path condition unsatisfiable: assumed contracts/invariants contradict each other")
+
     def exit_normal(self, value, fr, node):
         c = self.contract
         self.covered_sites.add("exit-normal")
+        self.cover_check("exit-normal", node)
         # in postconditions parameter names denote the entry values (parameters are mutable locals in Python)
         saved = dict(fr.locals)
         fr.locals.update(fr.entry)
